@@ -838,4 +838,95 @@ def layoutOK : List (CT × List Char) → Bool
   | [] => true
   | (t, g) :: r => gapOK t.2 g (renderL r) && layoutOK r
 
+/-! ## token classes: the spellings of one token (audit finding 10(a))
+
+What the real lexer / `name` callback / `range` callback map to the same value:
+* **keywords**: the grammar's literals (`"module"`, `"input"`, … `"endmodule"`) carry no `i` flag — each keyword has exactly ONE
+  spelling (`Input`, `MODULE` are plain names / lexical errors); the class is a singleton.
+* **names**: `VerilogTransformer.name` strips backslash and terminator of an escaped identifier, so `\abc ` and `abc` are the SAME
+  name (also `\4'b0011 ` and `4'b0011`: the string decides in `sigsel`, not the token type).  Every plain word that is no statement
+  keyword may be written escaped.  (The seven statement keywords as NAMES: canonical spelling is the escaped one; written plain they
+  are names only where no statement begins — `wire input;` — which `sameTok` does not cover.)
+* **numbers in ranges**: `int(token)` — every non-empty digit string with the same value (`[03:0]`, `[3:00]`).
+* **sized constants** are names; different spellings of one value (`4'b0011`, `4'B0011`, `4'd3`, `4'h3`, `04'b11`) are DIFFERENT
+  names that `sigsel` expands to the same bit list: class `sameSel` below, on the tree. -/
+
+/-- `a` is a spelling of the canonical token `t` -/
+def sameTok (a t : Tok) : Bool :=
+  a == t ||
+  match a, t with
+  | .esc x, .word w => x == w && (kwOf w).isNone
+  | .num ds, .num ds' => !ds.isEmpty && ds.all Char.isDigit && numVal ds == numVal ds'
+  | _, _ => false
+
+/-- token list `as` is, token by token (same lexer context), a spelling of the canonical token list `ts` -/
+def spellsB : List CT → List CT → Bool
+  | [], [] => true
+  | (c, a) :: r, (c', t) :: r' => c == c' && sameTok a t && spellsB r r'
+  | _, _ => false
+
+/-! ## token classes: the spellings of a sized constant (on the tree: different NAMES, one bit list)
+
+`sigsel` uses of a name `W'Bdigits`: `int(W)`, `int(digits, base of B.lower())`, then `W` bits of the value, most significant first.
+So two sized-constant names denote the same thing exactly when width and value CUT TO THE WIDTH agree (and both are inside the
+transformer's guard: width ≥ 1, digits below the base — otherwise `int()` raises for one of them): `4'b0011`, `4'B0011`, `4'd3`,
+`4'D03`, `4'h3`, `04'b11`, `4'hF3`, `4'd19` are one class.  The grammar has NO base `o`, no `_`, no blank inside the token, no `s`. -/
+
+def constW (n : String) : Nat := numVal (n.toList.takeWhile Char.isDigit)
+def constB (n : String) : Char := ((n.toList.dropWhile Char.isDigit).drop 1).headD 'b'
+def constD (n : String) : List Char := (n.toList.dropWhile Char.isDigit).drop 2
+
+/-- `n` and `n'` are sized-constant names of the same width, the same value modulo `2^width`, both inside or both outside the
+guard of `sigsel` -/
+def sameConst (n n' : String) : Bool :=
+  isConstWord n.toList && isConstWord n'.toList && constW n == constW n' &&
+  KV.Netlist.parseNum (KV.Netlist.baseOf (constB n)) (constD n) % 2 ^ constW n ==
+    KV.Netlist.parseNum (KV.Netlist.baseOf (constB n')) (constD n') % 2 ^ constW n &&
+  KV.Netlist.digitsOK (KV.Netlist.baseOf (constB n)) (constD n) == KV.Netlist.digitsOK (KV.Netlist.baseOf (constB n')) (constD n')
+
+mutual
+/-- the same selection up to the spelling of sized constants (a name WITH a range is never a constant) -/
+def sameSel : VSel → VSel → Bool
+  | .sig n none, .sig n' none => n == n' || sameConst n n'
+  | .sig n (some rg), .sig n' (some rg') => n == n' && rg == rg'
+  | .cat xs, .cat ys => sameSels xs ys
+  | _, _ => false
+def sameSels : List VSel → List VSel → Bool
+  | [], [] => true
+  | x :: r, y :: r' => sameSel x y && sameSels r r'
+  | _, _ => false
+end
+
+def samePin : VPin → VPin → Bool
+  | .named p none, .named p' none => p == p'
+  | .named p (some x), .named p' (some y) => p == p' && sameSel x y
+  | .pos x, .pos y => sameSel x y
+  | _, _ => false
+
+def samePins : List VPin → List VPin → Bool
+  | [], [] => true
+  | x :: r, y :: r' => samePin x y && samePins r r'
+  | _, _ => false
+
+def sameStmt : VStmt → VStmt → Bool
+  | .decl k r ns, .decl k' r' ns' => k == k' && r == r' && ns == ns'
+  | .assign t s, .assign t' s' => sameSel t t' && sameSel s s'
+  | .inst ty nm pins, .inst ty' nm' pins' => ty == ty' && nm == nm' && samePins pins pins'
+  | _, _ => false
+
+def sameStmts : List VStmt → List VStmt → Bool
+  | [], [] => true
+  | x :: r, y :: r' => sameStmt x y && sameStmts r r'
+  | _, _ => false
+
+/-- the same module up to the spelling of sized constants in pin connections and assigns -/
+def sameModule (m m' : VModule) : Bool := m.name == m'.name && m.ports == m'.ports && sameStmts m.stmts m'.stmts
+
+/-- the circuit of ONE parsed module (the tail of `circOfText`) -/
+def circOfModule (cfg : KV.Netlist.Cfg) (tl : KV.Netlist.TL) (m : VModule) : Option KV.Netlist.Circ :=
+  match toRs m.stmts with
+  | some rs => some ((KV.Netlist.module cfg tl m.ports (rs.map KV.Netlist.transform)).failIf
+      (m.stmts.any VStmt.hasPos || !(rs.all KV.Netlist.RStmt.ok)))
+  | none => none
+
 end KV.VerilogText
